@@ -26,7 +26,7 @@ def impl_run(events):
     r = A.Runner()
     try:
         out = [canon(r.step(e)) for e in events]
-        return out, r.proto._pack_seq, list(r.wtimes)
+        return out, r.cur_seq(), list(r.wtimes)
     finally:
         r.close()
 
@@ -109,7 +109,7 @@ def run(chk):
                     tags.append(str(len(tags) + 1))
                     e = ("send", tags[-1])
                 elif x < 0.6:
-                    e = ("ack", r.proto._pack_seq if rng.random() < 0.7 else rng.randrange(4))
+                    e = ("ack", r.cur_seq() if rng.random() < 0.7 else rng.randrange(4))
                 elif x < 0.72:
                     e = ("tick", rng.choice([300, 999, 1000, 2500]))
                 elif x < 0.84:
